@@ -68,6 +68,7 @@ pub fn exports(args: &Args, reg: &[TypeEntry], log: &mut Log) {
     let mut rng = Rng::new(args.seed ^ 0xE0);
     let esm = cfg!(feature = "import-esm");
     for (k, e) in reg.iter().enumerate() {
+        log.start(&e.id, &e.rust);
         clear_dir(&root);
         verif::reset_registry();
         // directory spelling for this root
